@@ -12,6 +12,7 @@ package main
 
 import (
 	"fmt"
+	"math"
 	"sort"
 	"strconv"
 	"strings"
@@ -37,12 +38,12 @@ type V = dyn.V
 // ordAd presents an fp.Ord[T] as an order over boxed values.
 type ordAd[T any] struct{ in fp.Ord[T] }
 
-func (o ordAd[T]) Eqv(a, b V) bool    { return o.in.Eqv(a.(T), b.(T)) }
-func (o ordAd[T]) Compare(a, b V) int { return o.in.Compare(a.(T), b.(T)) }
-func (o ordAd[T]) Less(a, b V) bool   { return o.in.Less(a.(T), b.(T)) }
-func (o ordAd[T]) LessEq(a, b V) bool { return o.in.LessEq(a.(T), b.(T)) }
-func (o ordAd[T]) Max(a, b V) V       { return o.in.Max(a.(T), b.(T)) }
-func (o ordAd[T]) Min(a, b V) V       { return o.in.Min(a.(T), b.(T)) }
+func (o ordAd[T]) Eqv(a, b V) bool     { return o.in.Eqv(a.(T), b.(T)) }
+func (o ordAd[T]) Compare(a, b V) int  { return o.in.Compare(a.(T), b.(T)) }
+func (o ordAd[T]) Less(a, b V) bool    { return o.in.Less(a.(T), b.(T)) }
+func (o ordAd[T]) LessEq(a, b V) bool  { return o.in.LessEq(a.(T), b.(T)) }
+func (o ordAd[T]) Max(a, b V) V        { return o.in.Max(a.(T), b.(T)) }
+func (o ordAd[T]) Min(a, b V) V        { return o.in.Min(a.(T), b.(T)) }
 func (o ordAd[T]) Reversed() fp.Ord[V] { return ordAd[T]{o.in.Reversed()} }
 func (o ordAd[T]) ThenComparing(other fp.Ord[V]) fp.Ord[V] {
 	return ordAd[T]{o.in.ThenComparing(unAd[T]{other})}
@@ -62,12 +63,12 @@ func (o ordAd[T]) impl() string {
 // unAd is the way back: an order over boxed values seen as fp.Ord[T].
 type unAd[T any] struct{ in fp.Ord[V] }
 
-func (o unAd[T]) Eqv(a, b T) bool    { return o.in.Eqv(a, b) }
-func (o unAd[T]) Compare(a, b T) int { return o.in.Compare(a, b) }
-func (o unAd[T]) Less(a, b T) bool   { return o.in.Less(a, b) }
-func (o unAd[T]) LessEq(a, b T) bool { return o.in.LessEq(a, b) }
-func (o unAd[T]) Max(a, b T) T       { return o.in.Max(a, b).(T) }
-func (o unAd[T]) Min(a, b T) T       { return o.in.Min(a, b).(T) }
+func (o unAd[T]) Eqv(a, b T) bool     { return o.in.Eqv(a, b) }
+func (o unAd[T]) Compare(a, b T) int  { return o.in.Compare(a, b) }
+func (o unAd[T]) Less(a, b T) bool    { return o.in.Less(a, b) }
+func (o unAd[T]) LessEq(a, b T) bool  { return o.in.LessEq(a, b) }
+func (o unAd[T]) Max(a, b T) T        { return o.in.Max(a, b).(T) }
+func (o unAd[T]) Min(a, b T) T        { return o.in.Min(a, b).(T) }
 func (o unAd[T]) Reversed() fp.Ord[T] { return unAd[T]{o.in.Reversed()} }
 func (o unAd[T]) ThenComparing(other fp.Ord[T]) fp.Ord[T] {
 	return unAd[T]{o.in.ThenComparing(ordAd[T]{other})}
@@ -89,7 +90,152 @@ func implOf(o fp.Ord[V]) string {
 	return "other"
 }
 
-func givenOrd[T fp.ImplicitOrd]() fp.Ord[V] { return eraseOrd[T](ord.Given[T]()) }
+// ---- cost accounting ------------------------------------------------------------------
+//
+// ord.TupleN / ord.HCons compare the tails of two products once for Eqv and once more for
+// Less at every level, so a comparison of two products whose first difference is at field p
+// costs about g^p component comparisons (g = 2 after the ord.New repair, 2.3 before it).
+// Every leaf instance is wrapped in a call counter. It serves two purposes:
+//   - a logical budget: one Compare / Less / Eqv / ... call may invoke the component orders
+//     at most budgetFactor * 3^depth * size times (depth of the instance expression, size of
+//     the two values); more is reported as <combinator>/exponential-comparisons. Every
+//     combinator legitimately multiplies the work by at most 3 per nesting level (Eqv, then
+//     Less in one or both directions), so the bound is far above any polynomial behaviour and
+//     far below g^p for wide products;
+//   - cost control of the monitor itself: pairs whose estimated cost is too high are not
+//     evaluated (except in the designated deep cases), and a hard cap aborts an evaluation
+//     that still runs away (sentinel panic, recovered by withCap). These two only reduce
+//     what is observed (counters pairs.skipped_* / *.aborted_*), they never make a verdict.
+
+type costExceeded struct{}
+
+var cost struct{ n, cap int64 }
+
+func init() { cost.cap = 1 << 62 }
+
+func tick() {
+	cost.n++
+	if cost.n > cost.cap {
+		panic(costExceeded{})
+	}
+}
+
+// withCap runs f with a budget of leaf-instance calls; false = aborted.
+func withCap(cap int64, f func()) (ok bool) {
+	cost.n, cost.cap = 0, cap
+	defer func() {
+		cost.cap = 1 << 62
+		if r := recover(); r != nil {
+			if _, is := r.(costExceeded); is {
+				ok = false
+				return
+			}
+			panic(r)
+		}
+	}()
+	f()
+	return true
+}
+
+// countOrd is a leaf instance of the library behind the call counter.
+type countOrd struct{ in fp.Ord[V] }
+
+func (o countOrd) Eqv(a, b V) bool     { tick(); return o.in.Eqv(a, b) }
+func (o countOrd) Compare(a, b V) int  { tick(); return o.in.Compare(a, b) }
+func (o countOrd) Less(a, b V) bool    { tick(); return o.in.Less(a, b) }
+func (o countOrd) LessEq(a, b V) bool  { tick(); return o.in.LessEq(a, b) }
+func (o countOrd) Max(a, b V) V        { tick(); return o.in.Max(a, b) }
+func (o countOrd) Min(a, b V) V        { tick(); return o.in.Min(a, b) }
+func (o countOrd) Reversed() fp.Ord[V] { return countOrd{o.in.Reversed()} }
+func (o countOrd) ThenComparing(other fp.Ord[V]) fp.Ord[V] {
+	return countOrd{o.in.ThenComparing(other)}
+}
+func (o countOrd) impl() string { return implOf(o.in) }
+
+// growth is the measured cost factor per equal leading field of ord.TupleN (1 = no blow-up).
+// It only tunes which pairs the monitor can afford, see calibrate.
+var growth = 1.0
+
+const budgetFactor = 200
+
+// calibrate measures how the library's TupleN comparison grows, by counting component calls
+// for Tuple6 and Tuple12 values that differ in the last field only.
+func calibrate() {
+	leaf := givenOrd[int]()
+	measure := func(n int) float64 {
+		ins := make([]fp.Ord[V], n)
+		a, b := make([]V, n), make([]V, n)
+		for i := range ins {
+			ins[i], a[i], b[i] = leaf, 1, 1
+		}
+		b[n-1] = 2
+		o := ordTuple(ins)
+		va, vb := dyn.MkTuple(a), dyn.MkTuple(b)
+		if !withCap(50_000_000, func() { o.Less(vb, va); o.Less(va, vb) }) {
+			return 50_000_000
+		}
+		return float64(cost.n)
+	}
+	c6, c12 := measure(6), measure(12)
+	growth = math.Pow(c12/c6, 1.0/6)
+	if growth < 1.3 { // polynomial: (12/6)^2 over 6 steps is 1.26
+		growth = 1
+	}
+}
+
+// estimate bounds (roughly, from the models) how many leaf calls one Compare(a,b) of the
+// instance costs; it mirrors how the combinators are built from New / LessFunc.
+func estimate(e *dyn.Expr, a, b *dyn.M) float64 {
+	switch e.Op {
+	case dyn.OpOption, dyn.OpPtr:
+		if a.Nil || b.Nil {
+			return 1
+		}
+		return 3 * estimate(e.Kids[0], a.Kids[0], b.Kids[0])
+	case dyn.OpSeq, dyn.OpSlice:
+		t := 1.0
+		for i := 0; i < len(a.Kids) && i < len(b.Kids); i++ {
+			t += 5 * estimate(e.Kids[0], a.Kids[i], b.Kids[i])
+		}
+		return t
+	case dyn.OpTuple, dyn.OpHList:
+		t, f := 1.0, 1.0
+		for i := range e.Kids {
+			t += 5 * f * estimate(e.Kids[i], a.Kids[i], b.Kids[i])
+			if dyn.RefCmp(e.Kids[i], a.Kids[i], b.Kids[i]) != 0 {
+				return t
+			}
+			f *= growth
+		}
+		// equal tuples: the Eqv chain alone decides, linear
+		t = 1
+		for i := range e.Kids {
+			t += estimate(e.Kids[i], a.Kids[i], b.Kids[i])
+		}
+		return t
+	case dyn.OpContra:
+		return 3 * estimate(e.Kids[0], e.Fn.M(a), e.Fn.M(b))
+	case dyn.OpNew:
+		return 3 * estimate(e.Kids[0], a, b)
+	case dyn.OpAsOrd:
+		return 2 * estimate(e.Kids[0], a, b)
+	case dyn.OpFromCompare, dyn.OpReversed:
+		return estimate(e.Kids[0], a, b)
+	case dyn.OpThen:
+		return estimate(e.Kids[0], a, b) + estimate(e.Kids[1], a, b)
+	}
+	return 1
+}
+
+const (
+	estLimit  = 40_000      // pairs estimated above this are not evaluated (except the designated deep pairs)
+	pairCap   = 6_000_000   // hard cap of leaf calls for one ordered pair
+	deepCap   = 400_000_000 // hard cap for a designated deep pair
+	sortLimit = 1_500       // estimated cost allowed between two elements of a Sort input
+	sortCap   = 30_000_000  // hard cap for one Sort / Min / Max call
+)
+
+func givenOrd[T fp.ImplicitOrd]() fp.Ord[V] { return countOrd{eraseOrd[T](ord.Given[T]())} }
 
 var ordLeaf = map[string]func() fp.Ord[V]{
 	"int": givenOrd[int], "int8": givenOrd[int8], "int16": givenOrd[int16], "int32": givenOrd[int32], "int64": givenOrd[int64],
@@ -120,7 +266,7 @@ func buildOrd(e *dyn.Expr, reg *registry) fp.Ord[V] {
 	case dyn.OpLeaf:
 		out, name = ordLeaf[e.Dom.Leaf](), "ord.Given["+e.Dom.Leaf+"]"
 	case dyn.OpTime:
-		out, name = eraseOrd[time.Time](ord.Time), "ord.Time"
+		out, name = countOrd{eraseOrd[time.Time](ord.Time)}, "ord.Time"
 	case dyn.OpSeq:
 		out, name = eraseOrd[fp.Seq[V]](ord.Seq(kids[0])), "ord.Seq"
 	case dyn.OpSlice:
@@ -137,7 +283,7 @@ func buildOrd(e *dyn.Expr, reg *registry) fp.Ord[V] {
 	case dyn.OpTuple:
 		out, name = ordTuple(kids), "ord.Tuple"+strconv.Itoa(len(kids))
 	case dyn.OpHList:
-		out, name = eraseOrd[hlist.Nil](ord.HNil), "ord.HNil"
+		out, name = countOrd{eraseOrd[hlist.Nil](ord.HNil)}, "ord.HNil"
 		for i := len(kids) - 1; i >= 0; i-- {
 			out, name = eraseOrd[hlist.Cons[V, V]](ord.HCons[V, V](kids[i], out)), "ord.HCons"
 		}
@@ -147,11 +293,11 @@ func buildOrd(e *dyn.Expr, reg *registry) fp.Ord[V] {
 		f := e.Fn.V
 		switch e.Fn.Dst.Leaf {
 		case "int":
-			out = ord.GivenField[V, int](func(v V) int { return f(v).(int) })
+			out = ord.GivenField[V, int](func(v V) int { tick(); return f(v).(int) })
 		case "string":
-			out = ord.GivenField[V, string](func(v V) string { return f(v).(string) })
+			out = ord.GivenField[V, string](func(v V) string { tick(); return f(v).(string) })
 		default:
-			out = ord.GivenField[V, float64](func(v V) float64 { return f(v).(float64) })
+			out = ord.GivenField[V, float64](func(v V) float64 { tick(); return f(v).(float64) })
 		}
 		name = "ord.GivenField[" + e.Fn.Dst.Leaf + "]"
 	case dyn.OpNew:
@@ -265,7 +411,10 @@ func init() {
 	for n := 1; n <= dyn.MaxArity; n++ {
 		add(dyn.OpTuple, n, "")
 	}
+	add(dyn.OpHList, wideHList, "") // a long HCons chain (the designated deep case measures its cost)
 }
+
+const wideHList = 18
 
 var ordOps = []dyn.Op{dyn.OpLeaf, dyn.OpTime, dyn.OpField, dyn.OpSeq, dyn.OpSlice, dyn.OpOption, dyn.OpPtr, dyn.OpTuple, dyn.OpHList,
 	dyn.OpContra, dyn.OpNew, dyn.OpFromCompare, dyn.OpAsOrd, dyn.OpReversed, dyn.OpThen}
@@ -283,6 +432,7 @@ type caseT struct {
 	pool    []dyn.Entry
 	x, y    []V
 	failed  bool
+	deep    bool // designated case: all single-position pairs of a large tuple, whatever they cost
 }
 
 func (c *caseT) show(i int) string { return dyn.Show(c.e.Dom, c.pool[i].M) }
@@ -310,17 +460,6 @@ func sign(x int) int {
 	return 0
 }
 
-// lessSign is the order an instance reports through Less alone.
-func lessSign(o fp.Ord[V], a, b V) int {
-	switch {
-	case o.Less(a, b):
-		return -1
-	case o.Less(b, a):
-		return 1
-	}
-	return 0
-}
-
 // blame descends to the innermost sub-instance that disagrees with the reference on the
 // components it is given.
 func (c *caseT) blame(e *dyn.Expr, a, b *dyn.M) string {
@@ -328,42 +467,204 @@ func (c *caseT) blame(e *dyn.Expr, a, b *dyn.M) string {
 		inst := c.reg.inst[al.Kid]
 		va, vb := dyn.Build(al.Kid.Dom, al.A), dyn.Build(al.Kid.Dom, al.B)
 		want := dyn.RefCmp(al.Kid, al.A, al.B)
-		if lessSign(inst, va, vb) != want || inst.Eqv(va, vb) != (want == 0) || sign(inst.Compare(va, vb)) != want {
+		if inst.Less(va, vb) != (want < 0) || inst.Less(vb, va) != (want > 0) || inst.Eqv(va, vb) != (want == 0) || sign(inst.Compare(va, vb)) != want {
 			return c.blame(al.Kid, al.A, al.B)
 		}
 	}
 	return c.reg.name[e]
 }
 
+// blameIncons descends to the innermost sub-instance whose own Compare / LessEq / Eqv / Min /
+// Max answers are inconsistent with its Less on the components it is given.
+func (c *caseT) blameIncons(e *dyn.Expr, a, b *dyn.M) string {
+	for _, al := range dyn.Align(e, a, b) {
+		k := c.reg.inst[al.Kid]
+		va, vb := dyn.Build(al.Kid.Dom, al.A), dyn.Build(al.Kid.Dom, al.B)
+		l, g, q, cmp := k.Less(va, vb), k.Less(vb, va), k.Eqv(va, vb), k.Compare(va, vb)
+		ok := (cmp < 0) == l && (cmp > 0) == g && (cmp == 0) == q && k.LessEq(va, vb) == (l || q) && btoi(l)+btoi(g)+btoi(q) == 1
+		if ok {
+			lo, hi := va, vb
+			if g {
+				lo, hi = vb, va
+			}
+			ok = k.Eqv(k.Min(va, vb), lo) && k.Eqv(k.Max(va, vb), hi)
+		}
+		if !ok {
+			return c.blameIncons(al.Kid, al.A, al.B)
+		}
+	}
+	return c.reg.name[e]
+}
+
+func btoi(b bool) int {
+	if b {
+		return 1
+	}
+	return 0
+}
+
+// callBudget is the logical budget of one call of an instance of the given nesting depth on
+// two values with the given total number of nodes.
+func callBudget(depth, size int) int64 {
+	return int64(budgetFactor * math.Pow(3, float64(depth)) * float64(size+2))
+}
+
+// blameCost descends to the innermost sub-instance that exceeds its own budget on the
+// components it is given.
+func (c *caseT) blameCost(e *dyn.Expr, a, b *dyn.M) string {
+	for _, al := range dyn.Align(e, a, b) {
+		inst := c.reg.inst[al.Kid]
+		va, vb := dyn.Build(al.Kid.Dom, al.A), dyn.Build(al.Kid.Dom, al.B)
+		start := cost.n
+		inst.Compare(va, vb)
+		if cost.n-start > callBudget(al.Kid.Depth(), al.A.Size()+al.B.Size()) {
+			return c.blameCost(al.Kid, al.A, al.B)
+		}
+	}
+	return c.reg.name[e]
+}
+
+// rec is what the instance answered for one ordered pair (a, b).
+type rec struct {
+	worst             int64 // most component calls made by one call of the instance
+	known             bool
+	full              bool // false: only less was asked
+	less, eqv, lessEq bool
+	cmp               int
+	minmax            bool // Min / Max were evaluated
+	minA, minB        bool // Eqv(Min(a,b), a), Eqv(Min(a,b), b)
+	maxA, maxB        bool
+}
+
 func (c *caseT) checkOrder(inst fp.Ord[V]) (ties, onePos int) {
 	w, e, n := c.w, c.e, len(c.pool)
 	root := c.reg.name[e]
 	w.Site(root)
-	L := make([][]bool, n)
-	E := make([][]bool, n)
+	blameOf := func(i, j int) string {
+		out := root
+		withCap(pairCap, func() { out = c.blame(e, c.pool[i].M, c.pool[j].M) })
+		return out
+	}
+	blameIncons := func(i, j int) string {
+		out := root
+		withCap(pairCap, func() { out = c.blameIncons(e, c.pool[i].M, c.pool[j].M) })
+		return out
+	}
+	pairStr := func(i, j int) string { return "\na = " + c.show(i) + "\nb = " + c.show(j) }
+	// designated deep pairs: the first base value against its single-position mutants
+	mandated := func(i, j int) bool {
+		if !c.deep {
+			return false
+		}
+		if i > j {
+			i, j = j, i
+		}
+		return i == 0 && c.pool[j].Parent == 0 && c.pool[j].Rel == "mutant" && c.pool[j].Pos >= 0
+	}
+	R := make([][]rec, n)
+	var maxCost, maxRatio int64
+	depth := e.Depth()
+	sizes := make([]int, n)
+	for i := range sizes {
+		sizes[i] = c.pool[i].M.Size()
+	}
 	for i := 0; i < n; i++ {
-		L[i] = make([]bool, n)
-		E[i] = make([]bool, n)
+		R[i] = make([]rec, n)
 		for j := 0; j < n; j++ {
-			L[i][j] = inst.Less(c.x[i], c.x[j])
-			E[i][j] = inst.Eqv(c.x[i], c.x[j])
+			a, b := c.x[i], c.x[j]
+			must := mandated(i, j)
+			if !must && (estimate(e, c.pool[i].M, c.pool[j].M) > estLimit || estimate(e, c.pool[j].M, c.pool[i].M) > estLimit) {
+				w.Add("pairs.skipped_by_cost_estimate", 1)
+				continue
+			}
+			limit := int64(pairCap)
+			if must {
+				limit = deepCap
+			}
+			var r rec
+			// ord.TupleN is several times cheaper when the smaller value comes first; of a
+			// designated deep pair only Less is asked in the expensive orientation
+			r.full = !must || dyn.RefCmp(e, c.pool[i].M, c.pool[j].M) <= 0
+			mark := int64(0)
+			step := func() { // closes one call of the instance
+				if d := cost.n - mark; d > r.worst {
+					r.worst = d
+				}
+				mark = cost.n
+			}
+			ok := withCap(limit, func() {
+				defer step()
+				r.less = inst.Less(a, b)
+				step()
+				if !r.full {
+					return
+				}
+				r.eqv = inst.Eqv(a, b)
+				step()
+				r.cmp = inst.Compare(a, b)
+				step()
+				r.lessEq = inst.LessEq(a, b)
+				step()
+				if !must {
+					mn := inst.Min(a, b)
+					step()
+					mx := inst.Max(a, b)
+					step()
+					r.minA, r.minB = inst.Eqv(mn, a), inst.Eqv(mn, b)
+					r.maxA, r.maxB = inst.Eqv(mx, a), inst.Eqv(mx, b)
+					r.minmax = true
+				}
+			})
+			if cost.n > maxCost {
+				maxCost = cost.n
+			}
+			// logical budget of one call
+			budget := callBudget(depth, sizes[i]+sizes[j])
+			if ratio := r.worst * 1000 / budget; ratio > maxRatio {
+				maxRatio = ratio
+			}
+			if r.worst > budget {
+				site := root
+				withCap(deepCap, func() { site = c.blameCost(e, c.pool[i].M, c.pool[j].M) })
+				c.viol(site+"/exponential-comparisons", fmt.Sprintf("one call (Less/Eqv/Compare/LessEq/Min/Max) on these two values invoked the component instances %d times (aborted=%v); budget %d = %d * 3^depth(%d) * size(%d)%s",
+					r.worst, !ok, budget, budgetFactor, depth, sizes[i]+sizes[j], pairStr(i, j)), i, j)
+			}
+			if !ok {
+				w.Add("pairs.aborted_by_cost_cap", 1)
+				continue
+			}
+			r.known = true
+			R[i][j] = r
+			w.Add("pairs", 1)
+			if must {
+				w.Add("pairs.deep", 1)
+			}
 		}
 	}
-	w.Add("pairs", int64(n*n))
-	blameOf := func(i, j int) string { return c.blame(e, c.pool[i].M, c.pool[j].M) }
-	pairStr := func(i, j int) string { return "\na = " + c.show(i) + "\nb = " + c.show(j) }
+	w.Max("cost.max_call_per_mille_of_budget", maxRatio)
+	w.Max("cost.max_leaf_calls_for_one_pair", maxCost)
 	isSeq := e.Op == dyn.OpSeq || e.Op == dyn.OpSlice
 	for i := 0; i < n; i++ {
 		// a value against a freshly allocated, structurally identical copy
-		if !inst.Eqv(c.x[i], c.y[i]) || inst.Less(c.x[i], c.y[i]) || inst.Less(c.y[i], c.x[i]) {
+		var bad bool
+		withCap(pairCap, func() {
+			bad = !inst.Eqv(c.x[i], c.y[i]) || inst.Less(c.x[i], c.y[i]) || inst.Less(c.y[i], c.x[i])
+		})
+		if bad {
 			c.viol(blameOf(i, i)+"/fresh-copy-not-equivalent", "a value and a structurally identical copy are not Eqv / are ordered, a = "+c.show(i), i)
 		}
 		for j := 0; j < n; j++ {
-			a, b := c.x[i], c.x[j]
+			r, q := R[i][j], R[j][i]
+			if !r.known || !q.known {
+				continue
+			}
 			want := dyn.RefCmp(e, c.pool[i].M, c.pool[j].M)
+			if !r.full {
+				continue // everything about this pair is checked from the (b, a) side
+			}
 			// trichotomy on the library's own answers
 			cnt := 0
-			for _, t := range []bool{L[i][j], L[j][i], E[i][j]} {
+			for _, t := range []bool{r.less, q.less, r.eqv} {
 				if t {
 					cnt++
 				}
@@ -371,50 +672,51 @@ func (c *caseT) checkOrder(inst fp.Ord[V]) (ties, onePos int) {
 			if cnt != 1 {
 				kind := "/less-and-eqv"
 				switch {
-				case L[i][j] && L[j][i]:
+				case r.less && q.less:
 					kind = "/not-antisymmetric"
 				case cnt == 0:
 					kind = "/neither-less-nor-eqv"
 				}
-				c.viol(blameOf(i, j)+kind, fmt.Sprintf("exactly one of Less(a,b), Less(b,a), Eqv(a,b) must hold: %v %v %v%s", L[i][j], L[j][i], E[i][j], pairStr(i, j)), i, j)
+				c.viol(blameOf(i, j)+kind, fmt.Sprintf("exactly one of Less(a,b), Less(b,a), Eqv(a,b) must hold: %v %v %v%s", r.less, q.less, r.eqv, pairStr(i, j)), i, j)
 			}
-			if E[i][j] != E[j][i] {
-				c.viol(blameOf(i, j)+"/eqv-not-symmetric", fmt.Sprintf("Eqv(a,b)=%v Eqv(b,a)=%v%s", E[i][j], E[j][i], pairStr(i, j)), i, j)
+			if q.full && r.eqv != q.eqv {
+				c.viol(blameOf(i, j)+"/eqv-not-symmetric", fmt.Sprintf("Eqv(a,b)=%v Eqv(b,a)=%v%s", r.eqv, q.eqv, pairStr(i, j)), i, j)
 			}
 			// Compare / LessEq / Min / Max consistent with Less
-			cmp := inst.Compare(a, b)
-			if (cmp < 0) != L[i][j] || (cmp > 0) != L[j][i] || (cmp == 0) != E[i][j] {
-				c.viol(root+"/compare-inconsistent-with-less", fmt.Sprintf("Compare(a,b)=%d, Less(a,b)=%v Less(b,a)=%v Eqv(a,b)=%v%s", cmp, L[i][j], L[j][i], E[i][j], pairStr(i, j)), i, j)
+			if (r.cmp < 0) != r.less || (r.cmp > 0) != q.less || (r.cmp == 0) != r.eqv {
+				c.viol(blameIncons(i, j)+"/compare-inconsistent-with-less", fmt.Sprintf("Compare(a,b)=%d, Less(a,b)=%v Less(b,a)=%v Eqv(a,b)=%v%s", r.cmp, r.less, q.less, r.eqv, pairStr(i, j)), i, j)
 			}
-			if le := inst.LessEq(a, b); le != (L[i][j] || E[i][j]) {
-				c.viol(root+"/lesseq-inconsistent-with-less", fmt.Sprintf("LessEq(a,b)=%v, Less(a,b)=%v Eqv(a,b)=%v%s", le, L[i][j], E[i][j], pairStr(i, j)), i, j)
+			if r.lessEq != (r.less || r.eqv) {
+				c.viol(blameIncons(i, j)+"/lesseq-inconsistent-with-less", fmt.Sprintf("LessEq(a,b)=%v, Less(a,b)=%v Eqv(a,b)=%v%s", r.lessEq, r.less, r.eqv, pairStr(i, j)), i, j)
 			}
-			mn, mx := inst.Min(a, b), inst.Max(a, b)
-			lo, hi := a, b // expected representatives (either one when a ~ b)
-			if L[j][i] {
-				lo, hi = b, a
-			}
-			if !inst.Eqv(mn, lo) || (!E[i][j] && inst.Eqv(mn, hi)) {
-				c.viol(root+"/min-inconsistent-with-less", fmt.Sprintf("Min(a,b) is not the smaller argument (Less(a,b)=%v Less(b,a)=%v)%s", L[i][j], L[j][i], pairStr(i, j)), i, j)
-			}
-			if !inst.Eqv(mx, hi) || (!E[i][j] && inst.Eqv(mx, lo)) {
-				c.viol(root+"/max-inconsistent-with-less", fmt.Sprintf("Max(a,b) is not the greater argument (Less(a,b)=%v Less(b,a)=%v)%s", L[i][j], L[j][i], pairStr(i, j)), i, j)
+			if r.minmax {
+				// expected representatives: a is the smaller one unless Less(b,a); either one when a ~ b
+				minLo, minHi, maxLo, maxHi := r.minA, r.minB, r.maxA, r.maxB
+				if q.less {
+					minLo, minHi, maxLo, maxHi = r.minB, r.minA, r.maxB, r.maxA
+				}
+				if !minLo || (!r.eqv && minHi) {
+					c.viol(blameIncons(i, j)+"/min-inconsistent-with-less", fmt.Sprintf("Min(a,b) is not the smaller argument (Less(a,b)=%v Less(b,a)=%v)%s", r.less, q.less, pairStr(i, j)), i, j)
+				}
+				if !maxHi || (!r.eqv && maxLo) {
+					c.viol(blameIncons(i, j)+"/max-inconsistent-with-less", fmt.Sprintf("Max(a,b) is not the greater argument (Less(a,b)=%v Less(b,a)=%v)%s", r.less, q.less, pairStr(i, j)), i, j)
+				}
 			}
 			// the reference order
 			got := 0
-			if L[i][j] {
+			if r.less {
 				got = -1
-			} else if L[j][i] {
+			} else if q.less {
 				got = 1
 			}
 			if got != want {
 				c.viol(blameOf(i, j)+"/order-differs-from-reference", fmt.Sprintf("Less says %d, the reference order says %d (-1: a<b, 0: equivalent, +1: a>b)%s", got, want, pairStr(i, j)), i, j)
 			}
-			if E[i][j] != (want == 0) {
-				c.viol(blameOf(i, j)+"/eqv-differs-from-reference", fmt.Sprintf("Eqv(a,b)=%v, the reference order says %d%s", E[i][j], want, pairStr(i, j)), i, j)
+			if r.eqv != (want == 0) {
+				c.viol(blameOf(i, j)+"/eqv-differs-from-reference", fmt.Sprintf("Eqv(a,b)=%v, the reference order says %d%s", r.eqv, want, pairStr(i, j)), i, j)
 			}
-			if sign(cmp) != want {
-				c.viol(blameOf(i, j)+"/compare-differs-from-reference", fmt.Sprintf("Compare(a,b)=%d, the reference order says %d%s", cmp, want, pairStr(i, j)), i, j)
+			if sign(r.cmp) != want {
+				c.viol(blameOf(i, j)+"/compare-differs-from-reference", fmt.Sprintf("Compare(a,b)=%d, the reference order says %d%s", r.cmp, want, pairStr(i, j)), i, j)
 			}
 			if i < j {
 				if want == 0 {
@@ -447,26 +749,35 @@ func (c *caseT) checkOrder(inst fp.Ord[V]) (ties, onePos int) {
 			}
 		}
 	}
-	// transitivity over all triples
+	// transitivity over all triples whose three pairs were evaluated
 	triples := 0
 	for i := 0; i < n; i++ {
 		for j := 0; j < n; j++ {
-			if !L[i][j] && !E[i][j] {
-				triples += n
+			if !R[i][j].full || !R[i][j].known || (!R[i][j].less && !R[i][j].eqv) {
 				continue
 			}
 			for k := 0; k < n; k++ {
+				if !R[j][k].known || !R[i][k].known || !R[j][k].full || !R[i][k].full {
+					continue
+				}
 				triples++
 				bad := ""
-				if L[i][j] && L[j][k] && !L[i][k] {
+				if R[i][j].less && R[j][k].less && !R[i][k].less {
 					bad = "/less-not-transitive"
-				} else if E[i][j] && E[j][k] && !E[i][k] {
+				} else if R[i][j].eqv && R[j][k].eqv && !R[i][k].eqv {
 					bad = "/eqv-not-transitive"
 				}
 				if bad != "" {
 					b := root
 					for _, pr := range [][2]int{{i, j}, {j, k}, {i, k}} {
-						if lessSign(inst, c.x[pr[0]], c.x[pr[1]]) != dyn.RefCmp(e, c.pool[pr[0]].M, c.pool[pr[1]].M) {
+						x, y := R[pr[0]][pr[1]], R[pr[1]][pr[0]]
+						got := 0
+						if x.less {
+							got = -1
+						} else if y.known && y.less {
+							got = 1
+						}
+						if got != dyn.RefCmp(e, c.pool[pr[0]].M, c.pool[pr[1]].M) {
 							b = blameOf(pr[0], pr[1])
 							break
 						}
@@ -477,13 +788,14 @@ func (c *caseT) checkOrder(inst fp.Ord[V]) (ties, onePos int) {
 		}
 	}
 	w.Add("triples", int64(triples))
-	// single-position differences: strictly ordered one way
+	// single-position differences: strictly ordered exactly one way
 	allPos := map[int]bool{}
 	for j, en := range c.pool {
 		if en.Rel != "mutant" || en.Parent < 0 {
 			continue
 		}
-		if dyn.RefCmp(e, c.pool[en.Parent].M, en.M) != 0 && L[en.Parent][j] != L[j][en.Parent] {
+		r, q := R[en.Parent][j], R[j][en.Parent]
+		if r.known && q.known && dyn.RefCmp(e, c.pool[en.Parent].M, en.M) != 0 && r.less != q.less {
 			onePos++
 			if en.Parent == 0 && en.Pos >= 0 {
 				allPos[en.Pos] = true
@@ -524,8 +836,10 @@ func (o tagOrd) Min(a, b tagged) tagged {
 	}
 	return a
 }
-func (o tagOrd) Reversed() fp.Ord[tagged]                         { panic("tagOrd.Reversed is not used") }
-func (o tagOrd) ThenComparing(other fp.Ord[tagged]) fp.Ord[tagged] { panic("tagOrd.ThenComparing is not used") }
+func (o tagOrd) Reversed() fp.Ord[tagged] { panic("tagOrd.Reversed is not used") }
+func (o tagOrd) ThenComparing(other fp.Ord[tagged]) fp.Ord[tagged] {
+	panic("tagOrd.ThenComparing is not used")
+}
 
 func ids(s []tagged) []int {
 	out := make([]int, len(s))
@@ -563,6 +877,23 @@ func (c *caseT) checkSorts(inst fp.Ord[V], trials int) {
 	w, e, r := c.w, c.e, c.w.Rand(c.idx+1_000_000)
 	to := tagOrd{inst}
 	n := len(c.pool)
+	// elements are drawn from pool entries that are pairwise cheap to compare (see estimate)
+	var cand []int
+	for _, idx := range r.Perm(n) {
+		ok := true
+		for _, s := range cand {
+			if estimate(e, c.pool[idx].M, c.pool[s].M) > sortLimit || estimate(e, c.pool[s].M, c.pool[idx].M) > sortLimit {
+				ok = false
+				break
+			}
+		}
+		if ok {
+			cand = append(cand, idx)
+		}
+	}
+	if len(cand) < n {
+		w.Add("sort.cases_with_reduced_element_pool", 1)
+	}
 	for t := 0; t < trials; t++ {
 		var length int
 		switch r.IntN(8) {
@@ -587,14 +918,14 @@ func (c *caseT) checkSorts(inst fp.Ord[V], trials int) {
 			k := 1 + r.IntN(3)
 			pick := make([]int, k)
 			for i := range pick {
-				pick[i] = r.IntN(n)
+				pick[i] = cand[r.IntN(len(cand))]
 			}
 			for i := range idsIn {
 				idsIn[i] = pick[r.IntN(k)]
 			}
 		default:
 			for i := range idsIn {
-				idsIn[i] = r.IntN(n)
+				idsIn[i] = cand[r.IntN(len(cand))]
 			}
 		}
 		refLess := func(a, b int) bool { return dyn.RefCmp(e, c.pool[a].M, c.pool[b].M) < 0 }
@@ -621,118 +952,128 @@ func (c *caseT) checkSorts(inst fp.Ord[V], trials int) {
 			w.Add("sort.inputs_empty", 1)
 		}
 		w.Max("sort.max_length", int64(length))
+		nilEmpty := r.IntN(2) == 0
 		mk := func() fp.Seq[tagged] {
+			if length == 0 && nilEmpty {
+				return nil
+			}
 			s := make(fp.Seq[tagged], length)
 			for i, id := range idsIn {
 				s[i] = tagged{c.x[id], id}
 			}
-			if length == 0 && r.IntN(2) == 0 {
-				return nil
-			}
 			return s
 		}
-		apis := []string{"seq", "iterator", "list"}
-		for _, api := range apis {
+		for _, api := range []string{"seq", "iterator", "list"} {
 			// ---- Sort
-			in := mk()
-			var out fp.Seq[tagged]
 			site := api + ".Sort"
-			w.Site(site)
-			switch api {
-			case "seq":
-				out = seq.Sort(in, to)
-			case "iterator":
-				out = iterator.Sort(iterator.FromSeq(in), to)
-			default:
-				out = list.Sort(list.FromSeq(in), to)
-			}
-			w.Hit(site)
-			w.Add("sorts", 1)
-			outIDs := ids(out)
-			fail := func(kind, detail string) {
-				c.w.Violation(c.idx, site+kind, detail+"\ninstance: "+c.exprStr, c.sortWitness(idsIn, outIDs))
-			}
-			if !sameInts(ids(in), idsIn) {
-				fail("/input-mutated", fmt.Sprintf("the input sequence was reordered by %s: before %v, after %v", site, idsIn, ids(in)))
-			}
-			cnt := map[int]int{}
-			for _, id := range idsIn {
-				cnt[id]++
-			}
-			for _, id := range outIDs {
-				cnt[id]--
-			}
-			perm := len(outIDs) == len(idsIn)
-			for _, v := range cnt {
-				if v != 0 {
-					perm = false
-				}
-			}
-			if !perm {
-				fail("/not-a-permutation", fmt.Sprintf("output is not a permutation of the input: %d elements in, %d out", len(idsIn), len(outIDs)))
-			}
-			for k := 0; k+1 < len(out); k++ {
-				if inst.Less(out[k+1].v, out[k].v) || dyn.RefCmp(e, c.pool[out[k].id].M, c.pool[out[k+1].id].M) > 0 {
-					fail("/not-sorted", fmt.Sprintf("output[%d] > output[%d]: #%d %s  then  #%d %s", k, k+1, out[k].id, c.show(out[k].id), out[k+1].id, c.show(out[k+1].id)))
-					break
-				}
-			}
-			// ---- Min / Max
-			for _, which := range []string{"Min", "Max"} {
+			ok := withCap(sortCap, func() {
 				in := mk()
-				site := api + "." + which
+				var out fp.Seq[tagged]
 				w.Site(site)
-				var got fp.Option[tagged]
-				switch api + which {
-				case "seqMin":
-					got = seq.Min(in, to)
-				case "seqMax":
-					got = seq.Max(in, to)
-				case "iteratorMin":
-					got = iterator.Min(iterator.FromSeq(in), to)
-				case "iteratorMax":
-					got = iterator.Max(iterator.FromSeq(in), to)
-				case "listMin":
-					got = list.Min(list.FromSeq(in), to)
+				switch api {
+				case "seq":
+					out = seq.Sort(in, to)
+				case "iterator":
+					out = iterator.Sort(iterator.FromSeq(in), to)
 				default:
-					got = list.Max(list.FromSeq(in), to)
+					out = list.Sort(list.FromSeq(in), to)
 				}
 				w.Hit(site)
-				w.Add("minmax", 1)
+				w.Add("sorts", 1)
+				outIDs := ids(out)
 				fail := func(kind, detail string) {
-					c.w.Violation(c.idx, site+kind, detail+"\ninstance: "+c.exprStr, c.sortWitness(idsIn, nil))
+					c.w.Violation(c.idx, site+kind, detail+"\ninstance: "+c.exprStr, c.sortWitness(idsIn, outIDs))
 				}
-				if length == 0 {
-					if got.IsDefined() {
-						fail("/some-on-empty", "a value was returned for an empty input")
-					}
-					w.Add("minmax.none_on_empty", 1)
-					continue
+				if !sameInts(ids(in), idsIn) {
+					fail("/input-mutated", fmt.Sprintf("the input sequence was reordered by %s: before %v, after %v", site, idsIn, ids(in)))
 				}
-				if !got.IsDefined() {
-					fail("/none-on-nonempty", fmt.Sprintf("None for an input of %d elements", length))
-					continue
-				}
-				g := got.Get()
-				if g.id < 0 || g.id >= n || !seen[g.id] {
-					fail("/not-an-element", fmt.Sprintf("returned element #%d is not in the input", g.id))
-					continue
-				}
+				cnt := map[int]int{}
 				for _, id := range idsIn {
-					var bad bool
-					if which == "Min" {
-						bad = inst.Less(c.x[id], g.v) || dyn.RefCmp(e, c.pool[g.id].M, c.pool[id].M) > 0
-					} else {
-						bad = inst.Less(g.v, c.x[id]) || dyn.RefCmp(e, c.pool[g.id].M, c.pool[id].M) < 0
+					cnt[id]++
+				}
+				for _, id := range outIDs {
+					cnt[id]--
+				}
+				perm := len(outIDs) == len(idsIn)
+				for _, v := range cnt {
+					if v != 0 {
+						perm = false
 					}
-					if bad {
-						kind := map[string]string{"Min": "/not-least", "Max": "/not-greatest"}[which]
-						fail(kind, fmt.Sprintf("%s returned #%d %s but the input holds #%d %s", site, g.id, c.show(g.id), id, c.show(id)))
+				}
+				if !perm {
+					fail("/not-a-permutation", fmt.Sprintf("output is not a permutation of the input: %d elements in, %d out", len(idsIn), len(outIDs)))
+				}
+				for k := 0; k+1 < len(out); k++ {
+					if inst.Less(out[k+1].v, out[k].v) || dyn.RefCmp(e, c.pool[out[k].id].M, c.pool[out[k+1].id].M) > 0 {
+						fail("/not-sorted", fmt.Sprintf("output[%d] > output[%d]: #%d %s  then  #%d %s", k, k+1, out[k].id, c.show(out[k].id), out[k+1].id, c.show(out[k+1].id)))
 						break
 					}
 				}
-				if !sameInts(ids(in), idsIn) {
-					fail("/input-mutated", "the input sequence was changed")
+			})
+			if !ok {
+				w.Add("sorts.aborted_by_cost_cap", 1)
+			}
+			// ---- Min / Max
+			for _, which := range []string{"Min", "Max"} {
+				site := api + "." + which
+				ok := withCap(sortCap, func() {
+					in := mk()
+					w.Site(site)
+					var got fp.Option[tagged]
+					switch api + which {
+					case "seqMin":
+						got = seq.Min(in, to)
+					case "seqMax":
+						got = seq.Max(in, to)
+					case "iteratorMin":
+						got = iterator.Min(iterator.FromSeq(in), to)
+					case "iteratorMax":
+						got = iterator.Max(iterator.FromSeq(in), to)
+					case "listMin":
+						got = list.Min(list.FromSeq(in), to)
+					default:
+						got = list.Max(list.FromSeq(in), to)
+					}
+					w.Hit(site)
+					w.Add("minmax", 1)
+					fail := func(kind, detail string) {
+						c.w.Violation(c.idx, site+kind, detail+"\ninstance: "+c.exprStr, c.sortWitness(idsIn, nil))
+					}
+					if length == 0 {
+						if got.IsDefined() {
+							fail("/some-on-empty", "a value was returned for an empty input")
+						}
+						w.Add("minmax.none_on_empty", 1)
+						return
+					}
+					if !got.IsDefined() {
+						fail("/none-on-nonempty", fmt.Sprintf("None for an input of %d elements", length))
+						return
+					}
+					g := got.Get()
+					if g.id < 0 || g.id >= n || !seen[g.id] {
+						fail("/not-an-element", fmt.Sprintf("returned element #%d is not in the input", g.id))
+						return
+					}
+					for _, id := range idsIn {
+						var bad bool
+						if which == "Min" {
+							bad = inst.Less(c.x[id], g.v) || dyn.RefCmp(e, c.pool[g.id].M, c.pool[id].M) > 0
+						} else {
+							bad = inst.Less(g.v, c.x[id]) || dyn.RefCmp(e, c.pool[g.id].M, c.pool[id].M) < 0
+						}
+						if bad {
+							kind := map[string]string{"Min": "/not-least", "Max": "/not-greatest"}[which]
+							fail(kind, fmt.Sprintf("%s returned #%d %s but the input holds #%d %s", site, g.id, c.show(g.id), id, c.show(id)))
+							break
+						}
+					}
+					if !sameInts(ids(in), idsIn) {
+						fail("/input-mutated", "the input sequence was changed")
+					}
+				})
+				if !ok {
+					w.Add("minmax.aborted_by_cost_cap", 1)
 				}
 			}
 		}
@@ -744,6 +1085,45 @@ func casesPerBatch(tier string) int {
 		return 1200
 	}
 	return 600
+}
+
+const deepFromArity = 10
+
+// forcedRootWide returns a slot number > 0 if global case g forces a wide product at the
+// root: N for TupleN, 22 for the long HCons chain.
+func forcedRootWide(g int) int {
+	f := catalogue[g%len(catalogue)]
+	round := g / len(catalogue)
+	if (round/2)%3 != 0 || (round%2 == 1 && round/2 >= 3) {
+		return 0
+	}
+	switch {
+	case f.op == dyn.OpTuple && f.arity >= deepFromArity:
+		return f.arity
+	case f.op == dyn.OpHList && f.arity == wideHList:
+		return dyn.MaxArity + 1
+	}
+	return 0
+}
+
+// isDeepCase designates, as a pure function of (tier, batch, index), one case per wide product
+// and run in which every single-position pair is evaluated whatever it costs: the first case
+// of its batch that forces that product at the root, in the batches assigned to it.
+func isDeepCase(w *vrt.W, g int) bool {
+	n := forcedRootWide(g)
+	if n == 0 {
+		return false
+	}
+	slots := 16
+	if (n-1)%slots != w.Batch%slots {
+		return false
+	}
+	for h := w.Batch * casesPerBatch(w.Tier); h < g; h++ {
+		if forcedRootWide(h) == n {
+			return false
+		}
+	}
+	return true
 }
 
 func runCase(w *vrt.W, i int) {
@@ -767,12 +1147,16 @@ func runCase(w *vrt.W, i int) {
 	if round%2 == 1 && round/2 >= levels {
 		force = nil
 	}
+	deep := force != nil && isDeepCase(w, g)
+	if deep {
+		force.LeafKids = true
+	}
 	e := dyn.GenExpr(r, ordCfg, force)
 	n, trials := 24, 2
 	if w.Tier == "thorough" {
-		n, trials = 40, 4
+		n, trials = 40, 3
 	}
-	c := &caseT{w: w, idx: i, e: e, pool: dyn.GenPool(r, e.Dom, n), reg: &registry{map[*dyn.Expr]fp.Ord[V]{}, map[*dyn.Expr]string{}}}
+	c := &caseT{w: w, idx: i, e: e, deep: deep, pool: dyn.GenPool(r, e.Dom, n), reg: &registry{map[*dyn.Expr]fp.Ord[V]{}, map[*dyn.Expr]string{}}}
 	for _, en := range c.pool {
 		c.x = append(c.x, dyn.Build(e.Dom, en.M))
 		c.y = append(c.y, dyn.Build(e.Dom, en.M))
@@ -799,7 +1183,10 @@ func runCase(w *vrt.W, i int) {
 		c.exprStr = e.Format(c.reg.nameOf)
 		hits(w, e, c.reg)
 		ties, onePos = c.checkOrder(inst)
-		if !c.failed {
+		if deep {
+			w.Add("deep.cases", 1)
+			w.Add("deep."+c.reg.name[e], 1)
+		} else if !c.failed {
 			c.checkSorts(inst, trials)
 		} else {
 			w.Add("sorts.skipped_because_order_is_broken", 1)
@@ -846,7 +1233,8 @@ func allNames() []string {
 
 func main() {
 	vrt.Main(vrt.Config{
-		Property: "C10",
+		Property:      "C10",
+		CaseCPUBudget: 120,
 		Batches: func(tier string) int {
 			if tier == "thorough" {
 				return 64
@@ -855,16 +1243,19 @@ func main() {
 		},
 		Cases: func(tier string, b int) int { return casesPerBatch(tier) },
 		Run: func(w *vrt.W) {
+			calibrate()
+			w.Max("cost.measured_growth_per_equal_leading_field_x100", int64(growth*100))
 			for i := w.From; i < w.To; i++ {
 				runCase(w, i)
 			}
 		},
-		Rule: "case = one Ord instance expression + one value pool + Sort/Min/Max runs driven by that instance. The expression is drawn by a PRNG over Given (13 numeric kinds and string), Time, Option, Seq, Slice, Ptr (lazy.Done|lazy.Call), Tuple1..21, HCons/HNil, ContraMap and GivenField (through id/half/neg/len/lower/floor/isDefined/tuple projection), New, FromCompare (results scaled by 1, 3, 2^40), as.Ord, Reversed and ThenComparing (primary = an order with ties, both on LessFunc- and CompareFunc-backed receivers), nested up to 3 combinators deep with every component type instantiated at any; case i forces catalogue entry i mod 36 (each instance, every tuple arity) at nesting level 0,1,2(,3). The pool (>=24 quick / >=40 thorough values) holds random base values, copies in another representation, one single-position mutant per tuple component / sequence element of the first base value, all proper prefixes and an extension for sequence roots, and random further mutants; NaN is never generated. On all ordered pairs and all triples: exactly one of Less(a,b), Less(b,a), Eqv(a,b); Less and Eqv transitive; Compare sign, LessEq, Min, Max consistent with Less; Less, Eqv and Compare equal to the reference order on the models (leaf <, instants, None/nil first, lexicographic with the shorter prefix first, function-then-order for ContraMap/GivenField, wrapped order for New/FromCompare/as.Ord, flipped for Reversed, primary-then-secondary for ThenComparing). If the instance is consistent, seq|iterator|list.Sort/Min/Max run on inputs of length 0..200 drawn from the pool with replacement (random, pre-sorted, reversed, 1-3 distinct values); elements carry an identity tag so that permutation, untouched input, sortedness (by the instance and by the reference), least/greatest element and None-on-empty are decided exactly. distinct_nontrivial counts distinct (expression, pool) fingerprints of cases whose pool had at least one tie between different pool entries AND at least one strictly ordered pair exactly one position apart.",
+		Rule: "case = one Ord instance expression + one value pool + Sort/Min/Max runs driven by that instance. The expression is drawn by a PRNG over Given (13 numeric kinds and string), Time, Option, Seq, Slice, Ptr (lazy.Done|lazy.Call), Tuple1..21, HCons/HNil, ContraMap and GivenField (through id/half/neg/len/lower/floor/isDefined/tuple projection), New, FromCompare (results scaled by 1, 3, 2^40), as.Ord, Reversed and ThenComparing (primary = an order with ties, both on LessFunc- and CompareFunc-backed receivers), nested up to 3 combinators deep with every component type instantiated at any; global case number g forces catalogue entry g mod 37 (each instance, every tuple arity, an 18-element HCons chain) at nesting level 0,1,2(,3). The pool (>=24 quick / >=40 thorough values) holds random base values, copies in another representation, one single-position mutant per tuple component / sequence element of the first base value, all proper prefixes and an extension for sequence roots, and random further mutants; NaN is never generated. On all ordered pairs and all triples: exactly one of Less(a,b), Less(b,a), Eqv(a,b); Less and Eqv transitive; Compare sign, LessEq, Min, Max consistent with Less; Less, Eqv and Compare equal to the reference order on the models (leaf <, instants, None/nil first, lexicographic with the shorter prefix first, function-then-order for ContraMap/GivenField, wrapped order for New/FromCompare/as.Ord, flipped for Reversed, primary-then-secondary for ThenComparing). Every leaf instance sits behind a call counter: one Less/Eqv/Compare/LessEq/Min/Max call may invoke the component instances at most 200 * 3^depth(expression) * size(a,b) times (logical budget, key <combinator>/exponential-comparisons); per run and wide product (Tuple10..21, HCons chain of 18) one designated deep case evaluates the first base value against its mutant at every position whatever it costs, other pairs whose estimated cost (calibrated by measuring Tuple6 vs Tuple12) is too high are skipped and counted. If the instance is consistent, seq|iterator|list.Sort/Min/Max run on inputs of length 0..200 drawn from the pool with replacement (random, pre-sorted, reversed, 1-3 distinct values); elements carry an identity tag so that permutation, untouched input, sortedness (by the instance and by the reference), least/greatest element and None-on-empty are decided exactly. distinct_nontrivial counts distinct (expression, pool) fingerprints of cases whose pool had at least one tie between different pool entries AND at least one strictly ordered pair exactly one position apart.",
 		Assumptions: []string{
 			"component types are instantiated at any (boxed values); the generic library code is the same for every type argument",
 			"functions given to ContraMap / GivenField / New / FromCompare / as.Ord are pure; compare functions return small or large magnitudes but never math.MinInt",
 			"values are PRNG-sampled; NaN excluded (floats are not totally ordered with NaN)",
 			"stability of Sort is not demanded",
+			"the cost budget (200 * 3^depth * size component calls per call) separates polynomial from exponential behaviour only for products of about 12 or more fields",
 		},
 		Floors: func(tier string) map[string]int64 {
 			min := int64(3)
@@ -882,7 +1273,11 @@ func main() {
 			}
 			for n := 1; n <= dyn.MaxArity; n++ {
 				fl["allpos.ord.Tuple"+strconv.Itoa(n)] = 1
+				if n >= deepFromArity {
+					fl["deep.ord.Tuple"+strconv.Itoa(n)] = 1
+				}
 			}
+			fl["deep.ord.HCons"] = 1
 			return fl
 		},
 		Finish: func(tier string, m *vrt.Merged, cov map[string]any) {
